@@ -81,8 +81,20 @@ def write_graph(d, nfiles, edges, ids=None, mapped=(), loc="abs",
                             hd.store_feature(FEATS[b], data_for(b) + 0.25)
                 if loc == "abs":
                     locs = [str(paths[b])]
-                elif loc == "rel":
+                elif loc in ("rel", "rel-cwd-decoy"):
                     locs = [paths[b].name]
+                    if loc == "rel-cwd-decoy":
+                        # a file of the same name, from another
+                        # measurement, in the working directory
+                        cw = d / "cwd"
+                        cw.mkdir(exist_ok=True)
+                        if not (cw / paths[b].name).exists():
+                            with RTDCWriter(cw / paths[b].name,
+                                            mode="reset") as hd:
+                                hd.store_metadata(gen.complete_meta(
+                                    N, fl=False, run_id="decoy-run"))
+                                hd.store_feature(FEATS[b],
+                                                 data_for(b) + 0.25)
                 elif loc == "dangling+abs":
                     locs = [dangling, str(paths[b])]
                 elif loc == "dangling+rel":
@@ -284,8 +296,15 @@ def _id_case(args):
                 usable = (lambda a, b: False) if loc in (
                     "dangling", "decoy-only") else (lambda a, b: True)
                 ref = reference(nfiles, edges, list(ids), mp, usable)
-                for i in range(nfiles):
-                    out += check_open(paths[i], i, nfiles, ref, case, tags)
+                here = os.getcwd()
+                if loc == "rel-cwd-decoy":
+                    os.chdir(d / "cwd")
+                try:
+                    for i in range(nfiles):
+                        out += check_open(paths[i], i, nfiles, ref, case,
+                                          tags)
+                finally:
+                    os.chdir(here)
                 cnt += 1
             finally:
                 shutil.rmtree(d, ignore_errors=True)
@@ -459,7 +478,8 @@ def run(ctx):
             continue
         for k in range(0, len(allids), 16):
             iitems.append((shape, allids[k:k + 16], True, "abs", scratch))
-    for loc in ("rel", "dangling", "dangling+abs", "dangling+rel",
+    for loc in ("rel", "rel-cwd-decoy", "dangling", "dangling+abs",
+                "dangling+rel",
                 "decoy+abs", "abs+decoy", "decoy-only"):
         for shape in ("edge", "chain", "cycle3"):
             iitems.append((shape, [("same",) * SHAPES[shape][0]], False, loc,
